@@ -105,7 +105,7 @@ def run(tier):
                               f"connectivity2bond_orders raised {type(e).__name__} on a {n}-atom connectivity input", {"case": c})
                 continue
             recs.append({"id": len(recs) + 1, "els": els, "ac": ac, "bo": as_int_matrix(bo), "charges": [int(x) for x in ch],
-                         "unpaired": [int(x) for x in un], "lewis": False, "src": "matrix"})
+                         "unpaired": [int(x) for x in un], "lewis": False, "lowest": False, "src": "matrix"})
     # ------------------- chemical, by construction (MC_Lewis) -------------------
     n_lewis = 0
     lewis_keys = set()
@@ -125,7 +125,7 @@ def run(tier):
                               f"connectivity2bond_orders raised {type(e).__name__} on a constructed closed-shell molecule", {"case": c})
                 continue
             recs.append({"id": len(recs) + 1, "els": els, "ac": ac, "bo": as_int_matrix(bo), "charges": [int(x) for x in ch],
-                         "unpaired": [int(x) for x in un], "lewis": True,
+                         "unpaired": [int(x) for x in un], "lewis": True, "lowest": bool(c.get("lowest", False)),
                          "src": f"lewis:{lewis_motif(c['heavy'], c['orders'])}/{shape}{n}/{key}|perm{c['perm']}|direct",
                          "structure": c["orders"]})
     # ------------------------------ chemical ------------------------------
@@ -154,7 +154,7 @@ def run(tier):
             try:
                 bo, ch, un = connectivity2bond_orders(els, np.array(ac, dtype=int))
                 recs.append({"id": len(recs) + 1, "els": els, "ac": ac, "bo": as_int_matrix(bo), "charges": [int(x) for x in ch],
-                             "unpaired": [int(x) for x in un], "lewis": True, "src": f"{name}|order{k}|direct"})
+                             "unpaired": [int(x) for x in un], "lewis": True, "lowest": False, "src": f"{name}|order{k}|direct"})
             except Exception as e:
                 rep.violation(f"C18|chemical|{name}|raises:{type(e).__name__}", f"connectivity2bond_orders raised on {name}", {"smiles": smi, "perm": perm})
             # through the RDKit exporter with shuffled, non-contiguous identifiers
@@ -186,7 +186,7 @@ def run(tier):
             ac2 = [[1 if g.has_bond(order_ids[i], order_ids[j]) else 0 for j in range(n)] for i in range(n)]
             recs.append({"id": len(recs) + 1, "els": els2, "ac": ac2, "bo": bo2,
                          "charges": [rm.GetAtomWithIdx(i).GetFormalCharge() for i in range(n)],
-                         "unpaired": [rm.GetAtomWithIdx(i).GetNumRadicalElectrons() for i in range(n)], "lewis": True,
+                         "unpaired": [rm.GetAtomWithIdx(i).GetNumRadicalElectrons() for i in range(n)], "lewis": True, "lowest": False,
                          "src": f"{name}|order{k}|to_rdmol"})
     # observation (not part of C18 as written): bond orders above three, e.g. the S-S bond of a disulfide comes out with
     # order five because S(VI) is tried before S(II); every atom still has a standard valence
@@ -194,11 +194,11 @@ def run(tier):
     if high:
         rep.note("bond orders above 3 were assigned (every atom still in a standard valence) for %d inputs, e.g. %s"
                  % (len(high), ", ".join(high[:4])))
-    ok, bad = rdk.validate("Obs_BondOrd", recs, ("id", "els", "ac", "bo", "charges", "unpaired", "lewis")) if recs else (set(), {})
+    ok, bad = rdk.validate("Obs_BondOrd", recs, ("id", "els", "ac", "bo", "charges", "unpaired", "lewis", "lowest")) if recs else (set(), {})
     byid = {r["id"]: r for r in recs}
     for i, v in bad.items():
         r = byid[i]
-        clause = "structural" if not v["structural"] else "lewis"
+        clause = "structural" if not v["structural"] else ("lewis" if not v["lewis"] else "hypervalent-where-not-needed")
         src = r["src"].split("|")
         sig = (f"C18|{clause}|{src[0]}|{src[-1]}" if r["lewis"] else f"C18|structural|matrix|n={len(r['els'])}")
         if src[0].startswith("lewis:"):
